@@ -183,7 +183,10 @@ def catmem_harness(spec_name, spec_fn, T):
     from ..explore import Skip
 
     def h(ch):
-        case = spec_fn(ch, T.at(0))
+        Tk = T.at(0)
+        if T.cplx:
+            Tk.pattern = ch.choose("complex_operands", ["rc", "c"])
+        case = spec_fn(ch, Tk)
         if case is None:
             raise Skip("spec declined")
         opts = [o for o in W.argnum_options(case) if o != "same"]
